@@ -600,7 +600,8 @@ def run_lazy_case(p):
     (O.enable_caching if p.get('caching', True) else O.disable_caching)()
     rng = random.Random(p['seed'])
     dom = O.make_domain(rng, 5)
-    cond = O.gen_cond(rng, 1, p.get('depth', 2), vocab=('cmp', 'name', 'truth'), neg=True, nested_neg=True)
+    cond = O.gen_cond(rng, 1, p.get('depth', 2), vocab=tuple(p.get('vocab', ('cmp', 'name', 'truth', 'member', 'contains', 'call'))),
+                      neg=True, nested_neg=True)
     pulled = []
 
     def source():
